@@ -295,10 +295,39 @@ class Gen:
         rng.shuffle(attrs)
         self.emit(["NewRecord", c, kind, ident, attrs])
 
+    ELEM_METHODS = {"Entity": ["wasGeneratedBy", "wasInvalidatedBy", "wasDerivedFrom", "wasAttributedTo", "alternateOf",
+                               "specializationOf", "hadMember"],
+                    "Activity": ["used", "wasInformedBy", "wasStartedBy", "wasEndedBy", "wasAssociatedWith"],
+                    "Agent": ["actedOnBehalfOf"]}
+
+    def op_elem_method(self):
+        """entity.wasGeneratedBy(...) and the like: a relation created through an element record"""
+        import prov.model as M
+        import inspect
+        rng = self.rng
+        rs = self.rrefs(["Entity", "Activity", "Agent"])
+        if not rs:
+            return self.op_new_record(rng.choice(ELEMENTS))
+        r = rng.choice(rs)
+        rec = self.im.rec(r)
+        kind = I.KIND_OF[type(rec)]
+        m = rng.choice(self.ELEM_METHODS[kind])
+        sig = inspect.signature(getattr(type(rec), m)).parameters
+        args = []
+        for p_, prm in sig.items():
+            if p_ in ("self", "attributes"):
+                continue
+            if prm.default is inspect.Parameter.empty or rng.random() < 0.5:
+                args.append([p_, self.time_value() if p_ == "time" else self.ref_value(r[1], p_)])
+        other = self.other_attrs(r[1]) if "attributes" in sig else []
+        self.emit(["ElemMethod", r, m, args, other])
+
     def op_factory(self, c=None):
         import prov.model as M
         import inspect
         rng = self.rng
+        if c is None and rng.random() < 0.15:
+            return self.op_elem_method()
         c = c or self.pick_cref()
         names = ["entity", "activity", "generation", "usage", "start", "end", "invalidation", "communication", "agent",
                  "attribution", "association", "delegation", "influence", "derivation", "revision", "quotation",
